@@ -261,6 +261,77 @@ theorem runProg_keeps (inv : Inv) (hm : InvMono inv) (hk : InvKeeps inv) (p : Pr
     obtain ⟨new, hk'⟩ := ih _ r0 h0 h
     exact ⟨new, ⟨hk'.effLog, hk'.notifications, hk'.crossHashes, hk'.cache⟩⟩
 
+/-- The same for a run that may end in an error (but not in a panic): everything done so far is still there. -/
+theorem runProg_keeps_np (inv : Inv) (hm : InvMono inv) (hk : InvKeeps inv) (p : Prog) :
+    ∀ s, (runProg leafHash inv p s).2.panicked = false → (runProg leafHash inv p s).2.swallowed = s.swallowed →
+      ∃ new, Keeps s (runProg leafHash inv p s).2 new := by
+  induction p with
+  | ret r => intro s _ _; exact ⟨[], by simp [runProg], by simp [runProg, notifsOf], by simp [runProg, crossesOf], by simp [runProg, writesOf, applyWrites]⟩
+  | fail => intro s _ _; exact ⟨[], by simp [runProg], by simp [runProg, notifsOf], by simp [runProg, crossesOf], by simp [runProg, writesOf, applyWrites]⟩
+  | panic => intro s h0 _; simp [runProg] at h0
+  | get k f ih => intro s h0 h; simp only [runProg] at h0 h ⊢; exact ih _ s h0 h
+  | put k v n ih =>
+    intro s h0 h; simp only [runProg] at h0 h ⊢
+    obtain ⟨new, hk'⟩ := ih _ h0 h
+    exact ⟨[.write (stPrefix :: k) v] ++ new, Keeps.trans ⟨rfl, by simp [notifsOf], by simp [crossesOf], by simp [writesOf, applyWrites]⟩ hk'⟩
+  | del k n ih =>
+    intro s h0 h; simp only [runProg] at h0 h ⊢
+    obtain ⟨new, hk'⟩ := ih _ h0 h
+    exact ⟨[.write (stPrefix :: k) []] ++ new, Keeps.trans ⟨rfl, by simp [notifsOf], by simp [crossesOf], by simp [writesOf, applyWrites]⟩ hk'⟩
+  | notify ev n ih =>
+    intro s h0 h; simp only [runProg] at h0 h ⊢
+    obtain ⟨new, hk'⟩ := ih _ h0 h
+    exact ⟨[.event ev] ++ new, Keeps.trans ⟨rfl, by simp [notifsOf], by simp [crossesOf], by simp [writesOf, applyWrites]⟩ hk'⟩
+  | merkle d n ih =>
+    intro s h0 h; simp only [runProg] at h0 h ⊢
+    obtain ⟨new, hk'⟩ := ih _ h0 h
+    exact ⟨[.cross (leafHash d)] ++ new, Keeps.trans ⟨rfl, by simp [notifsOf], by simp [crossesOf], by simp [writesOf, applyWrites]⟩ hk'⟩
+  | call a m args f ih =>
+    intro s h0 h
+    simp only [runProg] at h0 h ⊢
+    -- the nested invocation
+    generalize hq : inv { s with input := encodeParam a m args } = q at h0 h ⊢
+    obtain ⟨r, s'⟩ := q
+    have hm1 : s.swallowed ≤ s'.swallowed := by
+      have := hm { s with input := encodeParam a m args }; rw [hq] at this; exact this
+    by_cases hp : s'.panicked = true
+    · rw [if_pos hp] at h0; simp only at h0; rw [hp] at h0; cases h0
+    · rw [if_neg hp] at h0 h ⊢
+      cases r with
+      | ok v =>
+        simp only at h0 h ⊢
+        have hm2 := runProg_mono leafHash inv hm (f (.ok v)) s'
+        have heq : s'.swallowed = s.swallowed := by omega
+        obtain ⟨n1, k1⟩ : ∃ new, Keeps { s with input := encodeParam a m args } s' new := by
+          have := hk { s with input := encodeParam a m args } v (by rw [hq]) (by rw [hq]; exact heq)
+          rw [hq] at this; exact this
+        obtain ⟨n2, k2⟩ := ih (.ok v) s' h0 (by omega)
+        exact ⟨n1 ++ n2, Keeps.trans ⟨k1.effLog, k1.notifications, k1.crossHashes, k1.cache⟩ k2⟩
+      | ctxErr =>
+        simp only at h
+        have hm2 := runProg_mono leafHash inv hm (f .ctxErr) { s' with swallowed := s'.swallowed + 1 }
+        simp only at hm2; omega
+      | err =>
+        simp only at h
+        have hm2 := runProg_mono leafHash inv hm (f .err) { s' with swallowed := s'.swallowed + 1 }
+        simp only at hm2; omega
+      | diverge =>
+        simp only at h
+        have hm2 := runProg_mono leafHash inv hm (f .diverge) { s' with swallowed := s'.swallowed + 1 }
+        simp only at hm2; omega
+      | panic =>
+        simp only at h
+        have hm2 := runProg_mono leafHash inv hm (f .panic) { s' with swallowed := s'.swallowed + 1 }
+        simp only at hm2; omega
+  | witness a f ih => intro s h0 h; simp only [runProg] at h0 h ⊢; exact ih _ s h0 h
+  | getInput f ih => intro s h0 h; simp only [runProg] at h0 h ⊢; exact ih _ s h0 h
+  | context f ih => intro s h0 h; simp only [runProg] at h0 h ⊢; exact ih _ _ s h0 h
+  | blockInfo f ih => intro s h0 h; simp only [runProg] at h0 h ⊢; exact ih _ _ s h0 h
+  | log m n ih =>
+    intro s h0 h; simp only [runProg] at h0 h ⊢
+    obtain ⟨new, hk'⟩ := ih _ h0 h
+    exact ⟨new, ⟨hk'.effLog, hk'.notifications, hk'.crossHashes, hk'.cache⟩⟩
+
 theorem invokeStep_keeps (reg : Registry) (inv : Inv) (hm : InvMono inv) (hk : InvKeeps inv) :
     InvKeeps (invokeStep leafHash reg inv) := by
   intro s
@@ -283,6 +354,25 @@ theorem invokeStep_keeps (reg : Registry) (inv : Inv) (hm : InvMono inv) (hk : I
 theorem invokeF_keeps (reg : Registry) : ∀ n, InvKeeps (invokeF leafHash reg n)
   | 0 => by intro s r h; cases h
   | n + 1 => invokeStep_keeps leafHash reg _ (invokeF_mono leafHash reg n) (invokeF_keeps reg n)
+
+/-- What survives a nested call that FAILS (and whose failure the caller may swallow): the frame returns without any
+restore, so the service is left with the transaction cache holding every write made so far (the caller's and the failed
+callee's), but with the event list and the cross-hash list of the failed frame only — the caller's earlier events and
+cross hashes are gone for good; the context stack keeps the callee's frame and `input` stays the callee's arguments.
+(`new` = the effects of the failed frame, which itself swallowed nothing and did not panic.) -/
+theorem failed_frame_survivors (inv : Inv) (hm : InvMono inv) (hk : InvKeeps inv) (s : Svc) (sm : List (Bytes × Handler))
+    (addr : Addr) (args : Bytes) (p : Prog) (s3 : Svc)
+    (hrun : runProg leafHash inv p (enter s sm addr args) = (none, s3))
+    (hnp : s3.panicked = false) (hsw : s3.swallowed = s.swallowed) :
+    ∃ new, s3.effLog = s.effLog ++ new ∧
+      s3.cache = applyWrites s.cache (writesOf new) ∧
+      s3.notifications = notifsOf new ∧
+      List.Perm s3.crossHashes (crossesOf new) := by
+  have := runProg_keeps_np leafHash inv hm hk p (enter s sm addr args)
+  rw [hrun] at this
+  obtain ⟨new, k⟩ := this hnp hsw
+  exact ⟨new, by simpa [enter] using k.effLog, by simpa [enter] using k.cache,
+    by simpa [enter] using k.notifications, by simpa [enter] using k.crossHashes⟩
 
 /-! ### Block level -/
 
